@@ -363,6 +363,54 @@ def rule_metarewrite(P) -> RuleResult:
             res.fail(construct, 'metarewrite:compile', f'the rewritten {name} expression is not compiled', loc(fi, blk))
         else:
             res.ok({'function': name, 'rewritten_to': expected})
+    # getitem(container, key[, default]): the stored value when the key is present - whatever it is, including 0, '' and
+    # FALSE - else the default (NULL without one); a NULL container gives NULL
+    qe0 = P.module(QE)
+    V, Z, D = finite.Sym('STORED'), finite.Falsy('STORED0'), finite.Sym('DEFAULT')
+    for cname, has_default in (('GetItem2', False), ('GetItem3', True)):
+        ci = qe0.classes.get(cname)
+        call = ci.methods.get('__call__') if ci else None
+        if call is None:
+            raise AnalysisError(f'anchor vanished: {cname}.__call__')
+        okc = True
+        for present, stored in ((True, V), (True, Z), (True, None), (False, None)):
+            ops = {}
+
+            def callh(e, st, m, _p=present, _s=stored):
+                f = unparse(e.func)
+                if isinstance(e.func, ast.Name) and e.func.id in st and isinstance(st[e.func.id], finite.Sym) \
+                        and st[e.func.id].name.startswith('OP'):
+                    return {'OP0': finite.Sym('CONTAINER'), 'OP1': finite.Sym('KEY'), 'OP2': D}[st[e.func.id].name]
+                if f.endswith('.get') and isinstance(e.func, ast.Attribute):
+                    args = [m.ev(a, st) for a in e.args]
+                    if _p:
+                        return _s
+                    return args[1] if len(args) > 1 else None
+                return NotImplemented
+
+            class M(finite.Machine):
+                def stmt(self, s_, st):
+                    if isinstance(s_, ast.Assign) and isinstance(s_.targets[0], ast.Tuple) and unparse(s_.value) == 'self.operands':
+                        st = dict(st)
+                        for i, t in enumerate(s_.targets[0].elts):
+                            st[t.id] = finite.Sym(f'OP{i}')
+                        return st
+                    return super().stmt(s_, st)
+            mach = M(call=callh, contains=lambda l, c, st, _p=present: _p, names={'self': finite.Sym('self'), call.params[1]: finite.Sym('row')})
+            try:
+                mach.run(body_without_docstring(call.node), {})
+                got = None
+            except finite.Return as r:
+                got = r.value
+            want = stored if present else (D if has_default else None)
+            if got != want or (isinstance(got, finite.Sym) and isinstance(want, finite.Sym) and type(got) is not type(want)):
+                okc = False
+                res.fail(ci.fq + '.__call__', f'metarewrite:getitem:{"present" if present else "missing"}:{stored!r}',
+                         f'{cname}: key {"present with value " + ("NULL" if stored is None else "zero/empty/false" if stored is Z else "set") if present else "missing"}'
+                         f' -> {got!r}, must be {want!r} (a stored value is returned as it is, even when it is 0, "" or FALSE)', loc(call))
+                break
+        if okc:
+            res.ok({'node': cname, 'cases': 4, 'semantics': 'stored value if present else default'})
     # open/close selection from the (open, close) pair; NULL default
     qe = P.module(QE)
     for fname, idx in (('open_date', 0), ('close_date', 1), ('open_meta', 0)):
